@@ -450,7 +450,13 @@ fn apply_removals(
 
     let mut client_entity = match params.entity_map.server_entry(server_entity) {
         EntityEntry::Occupied(entry) => {
-            DeferredEntity::new(world.get_entity_mut(entry.get())?, params.changes)
+            let mut client_entity =
+                DeferredEntity::new(world.get_entity_mut(entry.get())?, params.changes);
+            // The entity could have been reserved earlier by a component that references it.
+            if !client_entity.contains::<Replicated>() {
+                client_entity.insert(Replicated);
+            }
+            client_entity
         }
         EntityEntry::Vacant(entry) => {
             // It's possible to receive a removal when an entity is spawned and has a component removed in the same tick.
@@ -512,7 +518,13 @@ fn apply_changes(
 
     let mut client_entity = match params.entity_map.server_entry(server_entity) {
         EntityEntry::Occupied(entry) => {
-            DeferredEntity::new(world.get_entity_mut(entry.get())?, params.changes)
+            let mut client_entity =
+                DeferredEntity::new(world.get_entity_mut(entry.get())?, params.changes);
+            // The entity could have been reserved earlier by a component that references it.
+            if !client_entity.contains::<Replicated>() {
+                client_entity.insert(Replicated);
+            }
+            client_entity
         }
         EntityEntry::Vacant(entry) => {
             let mut client_entity = DeferredEntity::new(world.spawn_empty(), params.changes);
